@@ -78,16 +78,16 @@ var traceSites = os.Getenv("VERIF_TRACE_SITES") != ""
 type nopT struct{}
 
 func (nopT) Errorf(format string, args ...interface{}) {}
-func (nopT) Logf(format string, args ...any)            {}
+func (nopT) Logf(format string, args ...any)           {}
 
 type regulator struct{ commit time.Duration }
 
-func (r *regulator) MaxTxCount() int                                      { return 1000 }
-func (r *regulator) OnPropose(now time.Time)                              {}
-func (r *regulator) CommitTimeout() time.Duration                         { return r.commit }
-func (r *regulator) MinCommitTimeout() time.Duration                      { return r.commit }
-func (r *regulator) OnTxExecution(count int, ed, fd time.Duration)        {}
-func (r *regulator) SetBlockInterval(i time.Duration, d time.Duration)    {}
+func (r *regulator) MaxTxCount() int                                   { return 1000 }
+func (r *regulator) OnPropose(now time.Time)                           {}
+func (r *regulator) CommitTimeout() time.Duration                      { return r.commit }
+func (r *regulator) MinCommitTimeout() time.Duration                   { return r.commit }
+func (r *regulator) OnTxExecution(count int, ed, fd time.Duration)     {}
+func (r *regulator) SetBlockInterval(i time.Duration, d time.Duration) {}
 
 // simChain is the chain object handed to the block manager and consensus: the
 // repo's test chain with the network manager, regulator, block and service
@@ -153,19 +153,19 @@ type node struct {
 	crashSites     [nSites]bool
 	forceJunk      bool // the next crash image of this node has junk behind the header of the first unsynced record
 	recrash        bool // arm another crash of this node soon after its next restart
-	crashedAt      int // site, valid when pendingCrash
+	crashedAt      int  // site, valid when pendingCrash
 	pendingCrash   *crashImage
 	crashes        int
 
 	finalized map[int64]string // height -> block id (hex) over all incarnations
 	lastSeenH int64
 
-	sticky    map[stickyKey]stickyVal
-	stickyH   int64
-	stickyInc int
-	touched   bool
-	fsSendSeq int // fast-sync block requests handed to the network by this node (all incarnations)
-	lock      lockObs // last observed lock (white-box lock monitor)
+	sticky     map[stickyKey]stickyVal
+	stickyH    int64
+	stickyInc  int
+	touched    bool
+	fsSendSeq  int                     // fast-sync block requests handed to the network by this node (all incarnations)
+	lock       lockObs                 // last observed lock (white-box lock monitor)
 	commitRecs map[int64]*commitRecord // height -> last precommit list this node wrote to its commit WAL
 }
 
@@ -177,35 +177,35 @@ type crashImage struct {
 }
 
 type incarnation struct {
-	s      *sim
-	node   *node
-	n      int
-	dead   atomic.Bool
-	db     *simDB
-	walDir string
-	wal    *walMgr
-	nm     *simNM
-	tc     *test.Chain
-	chain  *simChain
-	bm     module.BlockManager
-	cs     module.Consensus
-	mtx    *common.Mutex
-	fsMtx  []*common.Mutex // fast-sync client and server mutexes (registered once Start created them)
-	fsReg  bool
+	s         *sim
+	node      *node
+	n         int
+	dead      atomic.Bool
+	db        *simDB
+	walDir    string
+	wal       *walMgr
+	nm        *simNM
+	tc        *test.Chain
+	chain     *simChain
+	bm        module.BlockManager
+	cs        module.Consensus
+	mtx       *common.Mutex
+	fsMtx     []*common.Mutex // fast-sync client and server mutexes (registered once Start created them)
+	fsReg     bool
 	genesisRT bool // C08: genesis block round trip checked for this incarnation
-	started atomic.Bool
-	startErr error
-	termed bool
+	started   atomic.Bool
+	startErr  error
+	termed    bool
 }
 
 func (inc *incarnation) alive() bool { return !inc.dead.Load() }
 
 type mutexState struct {
 	holder uint64 // goroutine that currently holds it
-	node *node
-	inc  *incarnation
-	kind int // 0 consensus mutex, 1 fast-sync client, 2 fast-sync server
-	held bool
+	node   *node
+	inc    *incarnation
+	kind   int // 0 consensus mutex, 1 fast-sync client, 2 fast-sync server
+	held   bool
 }
 
 type lockReq struct {
@@ -242,30 +242,30 @@ func (h *eventHeap) Pop() interface{} {
 }
 
 type config struct {
-	N            int
-	F            int
-	TargetHeight int64
-	MaxSim       time.Duration
-	MaxSteps     int64
-	TmoPropose   time.Duration
-	Commit       time.Duration
-	LatMin       time.Duration
-	LatJitter    time.Duration
-	DropPm       int
-	DupPm        int
-	CorruptPm    int
-	Crashes      int
-	Partitions   int
-	TxCount      int
-	ValChange    bool
-	SkewMaxUs    int64
-	ReplayOld    bool // re-deliver arbitrarily old messages
-	SlowPm       int  // per-mille of deliveries that take seconds instead of milliseconds
-	DropPrecommitPm int // per-mille of precommit votes of rounds 0-2 that are lost (locks without commits)
-	MinBlockGen     bool // chain configured not to produce empty blocks (validators wait for transactions before proposing)
-	SplitPolkaPm    int // per-mille of (height, round < 3) in which prevotes reach only a tape-chosen subset of the validators (some lock, some do not)
-	Isolate      bool  // profile lag: one running validator is cut off until the others are LagHeights ahead
-	LagHeights   int64 // fastsync profile: the laggard boots when the others have finalized this many heights
+	N               int
+	F               int
+	TargetHeight    int64
+	MaxSim          time.Duration
+	MaxSteps        int64
+	TmoPropose      time.Duration
+	Commit          time.Duration
+	LatMin          time.Duration
+	LatJitter       time.Duration
+	DropPm          int
+	DupPm           int
+	CorruptPm       int
+	Crashes         int
+	Partitions      int
+	TxCount         int
+	ValChange       bool
+	SkewMaxUs       int64
+	ReplayOld       bool  // re-deliver arbitrarily old messages
+	SlowPm          int   // per-mille of deliveries that take seconds instead of milliseconds
+	DropPrecommitPm int   // per-mille of precommit votes of rounds 0-2 that are lost (locks without commits)
+	MinBlockGen     bool  // chain configured not to produce empty blocks (validators wait for transactions before proposing)
+	SplitPolkaPm    int   // per-mille of (height, round < 3) in which prevotes reach only a tape-chosen subset of the validators (some lock, some do not)
+	Isolate         bool  // profile lag: one running validator is cut off until the others are LagHeights ahead
+	LagHeights      int64 // fastsync profile: the laggard boots when the others have finalized this many heights
 }
 
 type sim struct {
@@ -274,28 +274,28 @@ type sim struct {
 	t    *testing.T
 	cfg  config
 
-	mu       sync.Mutex
-	nodes    []*node
-	heap     eventHeap
-	seq      uint64
-	start    time.Time
-	wake     chan struct{}
-	lockReqs []*lockReq
-	deferred []*deferredCall // block-manager requests of the engines not started yet (bmwrap.go)
-	fsLast   map[[2]int]time.Duration // delivery time of the last fast-sync message per (src, dst): ordered stream
-	polkaSplit map[string]int // "height/round" -> bitmask of destinations starved of prevotes (0: none)
-	laggard  *node // fastsync profile: the validator that boots late (set when it boots)
-	mutexes  map[*common.Mutex]*mutexState
-	genesis  string
-	obs      []func() // observations queued by SUT goroutines, flushed by the driver
-	part     map[[2]int]bool // partitioned pairs (i<j)
-	held     []heldMsg
-	running  int32 // events currently executing (for diagnostics)
-	txSeq    int
-	dsReports []dsReport
-	dirty    bool
-	recent   []heldMsg // pool of old consensus traffic (late-duplicate fault)
-	recentN  int
+	mu                sync.Mutex
+	nodes             []*node
+	heap              eventHeap
+	seq               uint64
+	start             time.Time
+	wake              chan struct{}
+	lockReqs          []*lockReq
+	deferred          []*deferredCall          // block-manager requests of the engines not started yet (bmwrap.go)
+	fsLast            map[[2]int]time.Duration // delivery time of the last fast-sync message per (src, dst): ordered stream
+	polkaSplit        map[string]int           // "height/round" -> bitmask of destinations starved of prevotes (0: none)
+	laggard           *node                    // fastsync profile: the validator that boots late (set when it boots)
+	mutexes           map[*common.Mutex]*mutexState
+	genesis           string
+	obs               []func()        // observations queued by SUT goroutines, flushed by the driver
+	part              map[[2]int]bool // partitioned pairs (i<j)
+	held              []heldMsg
+	running           int32 // events currently executing (for diagnostics)
+	txSeq             int
+	dsReports         []dsReport
+	dirty             bool
+	recent            []heldMsg // pool of old consensus traffic (late-duplicate fault)
+	recentN           int
 	lastProgressCount int64
 	lastProgressAt    time.Duration
 
